@@ -17,6 +17,7 @@ import (
 	"sort"
 	"strings"
 	"sync"
+	"time"
 
 	"github.com/creachadair/jrpc2"
 	"github.com/creachadair/jrpc2/channel"
@@ -270,10 +271,21 @@ func c17Start(builtin bool, t *atree) *c17Server {
 		top = checkingNamer{checking{root, s.log}}
 	}
 	cch, sch := channel.Direct()
-	s.srv = jrpc2.NewServer(top, &jrpc2.ServerOptions{DisableBuiltin: !builtin, Concurrency: 1})
+	// a configured start time (a rarely used option): what rpc.serverInfo reports, in every run of the server
+	s.srv = jrpc2.NewServer(top, &jrpc2.ServerOptions{DisableBuiltin: !builtin, Concurrency: 1, StartTime: c17StartTime})
 	s.srv.Start(sch)
 	s.cli = jrpc2.NewClient(cch, nil)
 	return s
+}
+
+var c17StartTime = time.Date(2001, 2, 3, 4, 5, 6, 0, time.UTC)
+
+// restart ends the current run of the server (the client hangs up) and starts the same server again.
+func (s *c17Server) restart() {
+	s.stop()
+	cch, sch := channel.Direct()
+	s.srv.Start(sch)
+	s.cli = jrpc2.NewClient(cch, nil)
 }
 
 func (s *c17Server) stop() {
@@ -447,6 +459,21 @@ func (e *c17Exec) exec(fields []string) string {
 		if !sort.StringsAreSorted(info.Methods) {
 			return "E?unsorted"
 		}
+		if !info.StartTime.Equal(c17StartTime) {
+			return "E?starttime"
+		}
+		// the same answers from a second run of the same server
+		s.restart()
+		var again jrpc2.ServerInfo
+		if err := s.cli.CallResult(context.Background(), "rpc.serverInfo", nil, &again); err != nil {
+			return "E" + err.Error()
+		}
+		if !again.StartTime.Equal(c17StartTime) {
+			return "E?starttime-after-restart"
+		}
+		if showNames(again.Methods) != showNames(info.Methods) {
+			return "E?methods-after-restart"
+		}
 		return showNames(info.Methods)
 	}
 	return "?"
@@ -465,7 +492,7 @@ func c17GenTree(r *rng, depth int, nextID *int) *atree {
 	letters := []string{"r", "p", "c", "a", "R"}
 	// keys that extend another key with a byte below, at and above '.' (sorting composed names is not sorting keys)
 	special := []string{"rpc", "rp", ".", "a.b", "é", "", "x", "rpc.x", "serverInfo", "r.", ".r", "日本",
-		"a-", "a-b", "a b", "a!", "a/", "a0", "r-", "r ", "r/", "rpc-x", "p,", "p+q", "*", "*", "r*", "?", "%"}
+		"a-", "a-b", "a b", "a!", "a/", "a0", "r-", "r ", "r/", "rpc-x", "p,", "p+q", "*", "*", "r*", "?", "%", " ", "\t", "\u00a0"}
 	genKey := func() string {
 		switch k := r.intn(20); {
 		case k < 12:
@@ -644,6 +671,9 @@ func c17Main(cfg *config) {
 	long := strings.Repeat("abcdefghij", 500)
 	fixed = append(fixed,
 		"m[2a=1;78=2;]",
+		// names that are nothing but white space are names like any other (only the EMPTY name is refused)
+		"m[20=1;09=2;c2a0=3;e38080=4;2020=5;0a=6;]",
+		"s[73:m[20=1;];20:m[78=2;20=3;];]",
 		"s[73:m[2a=1;70=2;];2a:m[78=3;2a=4;];]",
 		fmt.Sprintf("m[%s=1;%s=2;%s=3;%s=4;%s=5;]", hexf(long[:300]), hexf(long[:256]), hexf(long[:257]), hexf(long[:255]), hexf(long)),
 		fmt.Sprintf("s[%s:m[%s=1;78=2;];73:m[%s=3;];]", hexf(long[:300]), hexf(long[:257]), hexf(long[:300])),
